@@ -296,7 +296,13 @@ GenTerminals(g) == \A k \in 1 .. Len(g.TERM) : Abs(g.TERM[k].len - g.TERM[k].cov
 \* non-vacuity of the per-site clause: most sites of a generated mesh are well centred
 GenMostlyWellCentred(g) == 2 * Cardinality({i \in 1 .. Len(g.SITE) : g.SITE[i].wc}) >= Len(g.SITE)
 
+\* placement of a mesh relative to the device it belongs to (used for histories of Device operations, DevHeap)
+GenTrianglesTile(g) == Abs(NSum([k \in 1 .. Len(g.T) |-> Orient(g.P, g.T[k])], 1, Len(g.T)) - Domain2(g)) <= 2 * g.PER
+GenTrianglesInside(g) == \A k \in 1 .. Len(g.TIN) : g.TIN[k]      \* every triangle (centroid) lies in film minus holes
+GenPlaced(g) == /\ GenOrientation(g) /\ GenBoundaryIsOutline(g) /\ GenEuler(g) /\ GenTrianglesTile(g)
+                /\ GenTrianglesInside(g) /\ GenTerminals(g)
+
 GenAll(g) == /\ GenOrientation(g) /\ GenIncidence(g) /\ GenBoundaryFlags(g) /\ GenBoundaryIsOutline(g) /\ GenEuler(g)
-             /\ GenTiling(g) /\ GenCellAreas(g) /\ GenDualLengths(g) /\ GenEdgeVectors(g) /\ GenTerminals(g)
+             /\ GenTiling(g) /\ GenTrianglesInside(g) /\ GenCellAreas(g) /\ GenDualLengths(g) /\ GenEdgeVectors(g) /\ GenTerminals(g)
              /\ GenMostlyWellCentred(g)
 =============================================================================
